@@ -21,6 +21,7 @@ import (
 	"sort"
 	"strings"
 	"sync"
+	"time"
 
 	"github.com/Oneledger/protocol/action"
 	govact "github.com/Oneledger/protocol/action/governance"
@@ -59,6 +60,7 @@ type c11Plan struct {
 	CrashMid    []int // block indices: restart between EndBlock and Commit; the block is replayed
 	NoVerdictCrash bool // by default every verdict block is followed by a restart after its Commit
 	VerdictMid  bool  // additionally restart between EndBlock and Commit of every verdict block
+	JumpAt      []int // block indices whose block time is one day (+1 s) later than the regular 15 s step
 }
 
 func c11In(l []int, x int) bool {
@@ -86,6 +88,7 @@ type c11CaseRec struct {
 	RestartsAfterVerdict int
 	SharedVerdicts       int
 	PropChecked, PropDelivered, PropCreated, PropRefused, OptionChanges int
+	Releases int
 }
 
 type c11Addrs struct {
@@ -309,11 +312,15 @@ func c11Run(plan c11Plan) c11CaseRec {
 	}
 	nonce := 0
 	memo := func() string { nonce++; return fmt.Sprintf("c11-%d", nonce) }
+	convicted := map[int]bool{} // validators with a GUILTY verdict and no successful RELEASE since
 	lastMat := int64(-1)
 	for bi := 0; bi < len(plan.Blocks); bi++ {
 		blk := plan.Blocks[bi]
 		lastH := rep.H
 		attempt := 0
+		if c11In(plan.JumpAt, bi) {
+			rep.T0 = rep.T0.Add(86401 * time.Second)
+		}
 	retry:
 		attempt++
 		mark := len(rec.Steps)
@@ -374,6 +381,12 @@ func c11Run(plan c11Plan) c11CaseRec {
 					rep.DeliverTx(txPropVote(gv, plan.Name+t.Req, governance.OPIN_POSITIVE, memo()))
 				}
 				continue
+			case "release":
+				if rr := rep.DeliverTx(txRelease(v, memo())); rr.Code == 0 {
+					delete(convicted, ad.of(v.Val.Addr.String()))
+					rec.Releases++
+				}
+				continue
 			case "allege":
 				rep.DeliverTx(txAllegation(v, t.Req, cast[t.Mal].Val.Addr, h, memo()))
 				continue
@@ -425,7 +438,13 @@ func c11Run(plan c11Plan) c11CaseRec {
 			for _, f := range fset {
 				fs = append(fs, fmt.Sprintf("%d%%positive", f))
 			}
-			exp := fmt.Sprintf("ETx %s %s [%s]", c11Bool(ok), c11Z(dbal.String()), strings.Join(fs, "; "))
+			cv := []string{}
+			for _, c := range cast {
+				if convicted[ad.of(c.Val.Addr.String())] {
+					cv = append(cv, fmt.Sprintf("%d%%positive", ad.of(c.Val.Addr.String())))
+				}
+			}
+			exp := fmt.Sprintf("ETx %s %s [%s] [%s]", c11Bool(ok), c11Z(dbal.String()), strings.Join(fs, "; "), strings.Join(cv, "; "))
 			var op string
 			switch t.Kind {
 			case "stake":
@@ -442,9 +461,43 @@ func c11Run(plan c11Plan) c11CaseRec {
 		rep.EndBlock()
 		after := rep.View()
 		verdicts := []string{}
-		for _, c := range cast {
+		guilty := map[string]bool{} // GUILTY decisions of this end-block, read from the allegation request records
+		for k, av := range after {
+			if !strings.HasPrefix(k, "es__ark_") {
+				continue
+			}
+			var ar, br struct {
+				MaliciousAddress string
+				Status           int
+			}
+			if json.Unmarshal([]byte(av), &ar) != nil || ar.Status != 3 {
+				continue
+			}
+			if bv, okb := before[k]; okb && json.Unmarshal([]byte(bv), &br) == nil && br.Status == 3 {
+				continue
+			}
+			guilty[strings.ToLower(ar.MaliciousAddress)] = true
+		}
+		for k, bv := range before {
+			// a decided request is deleted: GUILTY if the convicted validator's total was reduced by this end-block
+			if _, still := after[k]; still || !strings.HasPrefix(k, "es__ark_") {
+				continue
+			}
+			var br struct{ MaliciousAddress string }
+			if json.Unmarshal([]byte(bv), &br) != nil {
+				continue
+			}
+			tk := "st__t_" + strings.ToLower(br.MaliciousAddress)
+			if before[tk] != after[tk] {
+				guilty[strings.ToLower(br.MaliciousAddress)] = true
+			}
+		}
+		isVerdict := func(c ValSpec) bool {
 			k := "es__ssvk_" + c.Val.Addr.String()
-			if after[k] != before[k] && after[k] != "" {
+			return (after[k] != before[k] && after[k] != "") || guilty[strings.ToLower(c.Val.Addr.String())]
+		}
+		for _, c := range cast {
+			if isVerdict(c) {
 				verdicts = append(verdicts, fmt.Sprintf("(%d%%positive, 30, 100)", ad.of(c.Val.Addr.String())))
 			}
 		}
@@ -460,6 +513,11 @@ func c11Run(plan c11Plan) c11CaseRec {
 		}
 		rep.Commit()
 		obs := c11Observe(rep.Dump(), ad)
+		for _, c := range cast {
+			if isVerdict(c) {
+				convicted[ad.of(c.Val.Addr.String())] = true
+			}
+		}
 		for _, vd := range verdicts {
 			// verdicts on a validator whose stake account backs another validator record as well
 			var vi string
@@ -716,6 +774,20 @@ func c11Scripts() []c11Plan {
 	cf.Blocks[8] = []c11Tx{tx("unstake", 1, "170")}
 	cf.Blocks[10] = []c11Tx{tx("unstake", 1, "180"), tx("unstake", 2, "190"), tx("withdraw", 1, "1")}
 	ps = append(ps, cf)
+	// convicted, released after the release time, convicted AGAIN: after every verdict the delegator's
+	// unstake / withdraw naming the validator are refused until a successful release
+	ro := c11Plan{Name: "repeat_offender", Genesis: "default", Mat: 2, Blocks: c11Empty(16), JumpAt: []int{6}}
+	ro.Blocks[1] = []c11Tx{tx("unstake", 2, "1000")}
+	ro.Blocks[3] = []c11Tx{{Kind: "allege", V: 0, Req: "ro1", Mal: 2}}
+	ro.Blocks[4] = []c11Tx{{Kind: "vote", V: 0, Req: "ro1", Choice: 1}, {Kind: "vote", V: 1, Req: "ro1", Choice: 1}, {Kind: "vote", V: 3, Req: "ro1", Choice: 1}}
+	ro.Blocks[5] = []c11Tx{tx("unstake", 2, "10"), tx("withdraw", 2, "10"), {Kind: "release", V: 2}}
+	ro.Blocks[6] = []c11Tx{{Kind: "release", V: 2}}
+	ro.Blocks[7] = []c11Tx{tx("unstake", 2, "10"), tx("withdraw", 2, "10")}
+	ro.Blocks[8] = []c11Tx{{Kind: "allege", V: 0, Req: "ro2", Mal: 2}}
+	ro.Blocks[9] = []c11Tx{{Kind: "vote", V: 0, Req: "ro2", Choice: 1}, {Kind: "vote", V: 1, Req: "ro2", Choice: 1}, {Kind: "vote", V: 3, Req: "ro2", Choice: 1}}
+	ro.Blocks[10] = []c11Tx{tx("unstake", 2, "10"), tx("withdraw", 2, "10")}
+	ro.Blocks[12] = []c11Tx{tx("unstake", 2, "20"), tx("withdraw", 2, "20")}
+	ps = append(ps, ro)
 	// maturity option changed between unstake and maturity: the height fixed at unstake time counts
 	mc := c11Plan{Name: "maturity_change", Genesis: "mature", Mat: 4, Blocks: c11Empty(14)}
 	mc.Blocks[1] = []c11Tx{tx("unstake", 1, "1000")}
@@ -748,6 +820,7 @@ type c11Report struct {
 	PropCreated int `json:"staking_option_proposals_created"`
 	PropRefused int `json:"staking_option_proposals_refused_at_checktx"`
 	OptionChanges int `json:"persisted_maturity_option_changes"`
+	Releases int `json:"successful_releases"`
 	Names     []string       `json:"names"`
 }
 
@@ -855,6 +928,7 @@ func c11Main(args []string) int {
 		rep.PropCreated += c.PropCreated
 		rep.PropRefused += c.PropRefused
 		rep.OptionChanges += c.OptionChanges
+		rep.Releases += c.Releases
 		for _, blk := range p.Blocks {
 			for _, t := range blk {
 				if t.Kind == "stake" || t.Kind == "unstake" || t.Kind == "withdraw" {
